@@ -49,7 +49,19 @@ def gen_cells(quick):
                 atoms.append((Z, [1.0, 0.5][(k + i) % 2], (0.25 * i) % 1.0, (0.1 + 0.3 * i) % 1.0, (0.5 * i + 0.05 * k) % 1.0))
             cell["atoms"] = atoms; cell["name"] = "gen%d" % k
             cells.append(cell)
-    return cells[:20 if quick else 60]
+    cells = cells[:20 if quick else 60]
+    # cells with MANY different elements, listed ascending, descending and in shuffled orders: the structure factor evaluates the atomic factors once per
+    # element; whatever bookkeeping does that (a flag array, a bitmap, a small cache) must not confuse two elements whose numbers differ by 8, 16, 32, 64 ...
+    # in whichever order they are listed.  The explicit sum with the library's own Atomic_Factors is the oracle.
+    S = sorted(set(range(8, 97, 8)) | {1, 2, 31, 33, 63, 65, 66, 95, 97, 98})
+    orders = [list(S), list(reversed(S))]
+    rng = np.random.RandomState(20260928)
+    for _ in range(2 if quick else 6):
+        o = list(S); rng.shuffle(o); orders.append(o)
+    for q, o in enumerate(orders):
+        atoms = [(int(Z), [1.0, 0.5, 0.25][i % 3], (0.137 * i) % 1.0, (0.291 * i + 0.05) % 1.0, (0.419 * i + 0.11) % 1.0) for i, Z in enumerate(o)]
+        cells.append(dict(a=6.1, b=7.3, c=8.9, alpha=90.0, beta=[90.0, 103.0][q % 2], gamma=90.0, atoms=atoms, name="many%d" % q))
+    return cells
 
 
 def run(ctx, B):
